@@ -241,7 +241,7 @@ for m in MS:
     H("f0_empty_m%d" % m, "__verif::f0", "F0", quick=["C04"] + (["C03", "C08", "C06"] if m == 1 else []), thorough=["C03", "C04", "C08", "C18", "C20"],
       cost=10, stubs=STUB_POOL, inst="Bump<%d>" % m, funcs=F0_FUNCS, bounds={"constructor": "with_min_align(), try_with_min_align_and_capacity(0)"})
 for m in (0, 3, 24, 32):
-    H("f0_invalid_m%d" % m, "__verif::f0", "F0", quick=["C04"], cost=5, stubs=STUB_NULL, inst="Bump<%d>" % m, funcs=F0_FUNCS,
+    H("f0_invalid_m%d" % m, "__verif::f0", "F0", quick=["C04", "C03"], cost=5, stubs=STUB_NULL, inst="Bump<%d>" % m, funcs=F0_FUNCS,
       allow=[r"MIN_ALIGN"],
       bounds={"constructor": "with_min_align() and try_with_min_align_and_capacity(any capacity)", "expectation": "does not return (panic)"})
 for (m, c, d) in [(1, 1, 0), (1, 100, 1), (8, 448, 3), (16, 449, 1), (2, 960, 0), (4, 500, 1)]:
@@ -283,7 +283,7 @@ for m in (1, 16):
     _f7("f7_tw_same_inf_m%d" % m, ["C11"] if m == 1 else [], ["C11", "C02"], STUB_CUT, F7TW,
         {"chunk": "256-byte chunk, symbolic start/finger", "value": "Result<u64, E(u32, D)>", "allocator": "A-cut"}, "Bump<%d>, alloc_try_with" % m, cost=120)
 for nm, m in (("f7_tw_newchunk_try_m8", 8), ("f7_tw_newchunk_inf_m16", 16), ("f7_tw_newchunk_inf_m16_first", 16)):
-    _f7(nm, ["C11", "C03", "C08"] if m == 16 else (["C11"] if m == 8 else []), ["C11", "C10", "C03", "C08"], STUB_POOL, F7TW + ["Bump::alloc_layout_slow", "Bump::new_chunk"],
+    _f7(nm, (["C11", "C03", "C08"] + (["C10"] if nm.endswith("_first") else [])) if m == 16 else (["C11", "C01"] if m == 8 else []), ["C11", "C10", "C03", "C08", "C01"], STUB_POOL, F7TW + ["Bump::alloc_layout_slow", "Bump::new_chunk"],
         {"pre_state": "one 448-byte chunk with 16 bytes free (concrete)", "value": "Result<[u8;200], E>", "allocator": "A-pool, nothing refused"}, "Bump<%d>" % m, cost=60, allow=[r"^out of memory$"],
         exempt=[] if nm.endswith("_first") else [r"failed initialiser after a new chunk"])
 for nm, m, q in (("f7_tw_newchunk_nested_inf_m16", 16, ["C11", "C01"]), ("f7_tw_newchunk_nested_try_m4", 4, []), ("f7_try_fill_newchunk_m4", 4, []), ("f7_try_fill_newchunk_m16", 16, ["C10", "C11"])):
@@ -349,12 +349,12 @@ H("v3_neighbours", "__verif::v1", "V3", quick=["C13"], thorough=["C13", "C01"], 
 # ---------------------------------------------------------------------------
 PANIC_OK = [r"capacity overflow|out of memory|requested allocation size overflowed|encountered allocation error|placeholder message; Kani doesn"]
 for t in ("u8", "u16", "a3", "u64", "a4096"):
-    H("e1_try_slice_%s" % t, "__verif::e1", "E1", quick=["C19"] + (["C09"] if t in ("u64", "a3") else []), thorough=["C19", "C09"], cost=15, stubs=STUB_NULL,
+    H("e1_try_slice_%s" % t, "__verif::e1", "E1", quick=["C19"] + (["C09"] if t in ("u64", "a3") else []) , thorough=["C19", "C09"], cost=15, stubs=STUB_NULL,
       inst="T=%s" % t, funcs=["Bump::try_alloc_slice_fill_with", "Bump::try_alloc_slice_fill_copy", "Bump::try_alloc_slice_fill_default", "Layout::array"],
       bounds={"len": "any usize with len*size_of::<T>() > 256 (what the arena holds)", "arena": "one empty 256-byte chunk, A-null"})
 for t in ("u8", "u64", "a3"):
-    H("e1_inf_slice_%s" % t, "__verif::e1", "E1", quick=["C19"] if t == "u64" else [], thorough=["C19", "C09"], cost=15, stubs=STUB_NULL, allow=PANIC_OK,
-      inst="T=%s" % t, funcs=["Bump::alloc_slice_fill_with"], bounds={"len": "any impossible length", "expectation": "does not return"})
+    H("e1_inf_slice_%s" % t, "__verif::e1", "E1", quick=["C19", "C11"] if t == "u64" else [], thorough=["C19", "C09", "C11"], cost=15, stubs=STUB_NULL, allow=PANIC_OK,
+      inst="T=%s" % t, funcs=["Bump::alloc_slice_fill_with", "Bump::alloc_slice_try_fill_with"], bounds={"len": "any impossible length", "expectation": "does not return, initialiser not run"})
 for nm, q in (("vec_with_capacity_u8", 0), ("vec_with_capacity_u64", 1), ("vec_reserve_u64", 1), ("vec_reserve_a3", 0), ("vec_reserve_exact_u16", 0),
               ("string_with_capacity", 1), ("string_reserve", 0)):
     H("e1_" + nm, "__verif::e1", "E1", quick=["C19"] if q else [], thorough=["C19"], cost=20, stubs=STUB_NULL, allow=PANIC_OK, inst=nm,
@@ -405,6 +405,19 @@ for op in ["insert", "insert_str", "remove", "truncate", "split_off", "drain"]:
           timeout=2400, cost=40, mem_gb=16, stubs=STUB_CUT + STUB_LOOPS, inst="String", funcs=["collections::String::" + op],
           allow=[r"is_char_boundary|assertion failed|out of bounds|index|range|slice|byte index|cannot remove|placeholder message"],
           bounds={"text": "any valid UTF-8 of exactly %d bytes" % n, "index/range": "any ILLEGAL value (non-boundary or out of range)", "expectation": "the call does not return"})
+for nm, q in (("n2_w1", 0), ("n2_w2", 1), ("n3_w3", 1), ("n4_w4", 1), ("n0_w4", 0), ("n2_w2_s3", 0)):
+    H("s1_pushw_" + nm, "__verif::s1", "S1", quick=["C14", "C18"] if q else [], thorough=["C14", "C18"], timeout=1500, cost=40, mem_gb=16, stubs=STUB_CUT + STUB_LOOPS, inst="String",
+      funcs=["collections::String::push", "collections::Vec::extend_from_slice", "<Vec as Extend>::extend", "collections::String::with_capacity_in"],
+      bounds={"text": "any valid UTF-8 of exactly N bytes (instance name: nN)", "char": "width W concrete per instance (wW): any ASCII for W=1, U+00E9 / U+20AC / U+1D11E otherwise", "capacity": "exactly N + W (+3 for _s3): the push must neither move nor regrow the buffer"})
+for nm, q in (("incl_end", 1), ("excl_end", 0), ("all", 0)):
+    H("s1_replw_" + nm, "__verif::s1", "S1", quick=["C14"] if q else [], thorough=["C14"], timeout=1500, cost=60, mem_gb=16, stubs=STUB_CUT + STUB_LOOPS, inst="String",
+      funcs=["collections::String::replace_range", "collections::Vec::splice", "<Splice as Drop>::drop", "Drain::fill", "Drain::move_tail"],
+      bounds={"text": "any valid UTF-8 of 3-4 bytes for which the range is legal", "range": "concrete per instance (%s), exclusive or inclusive end, always reaching the end of the text (ranges with a tail behind them: > 10 min, not registered)" % nm, "replacement": "1-2 ASCII bytes, contents symbolic", "capacity": "12 (no reallocation)"})
+for nm, q in (("incl_oob", 1), ("excl_start", 0)):
+    H("s1p_replw_" + nm, "__verif::s1", "S1", quick=["C14"] if q else [], thorough=["C14"], timeout=1500, cost=60, mem_gb=16, stubs=STUB_CUT + STUB_LOOPS, inst="String",
+      funcs=["collections::String::replace_range"],
+      allow=[r"is_char_boundary|assertion failed|out of bounds|index|range|slice|byte index|placeholder message"],
+      bounds={"text": "any valid UTF-8 of 3-4 bytes for which the concrete range (%s) is ILLEGAL (an end inside a character, or past the end)" % nm, "expectation": "the call does not return"})
 H("s2_from_utf8", "__verif::s1", "S2", quick=[], thorough=["C14"], timeout=2400, cost=60, mem_gb=16, stubs=STUB_CUT + STUB_LOOPS, inst="String",
   funcs=["collections::String::from_utf8", "FromUtf8Error"], bounds={"input": "every byte string of 0..2 bytes (3 bytes: solver ran out of 16 GB in core::str validation)"})
 
@@ -414,7 +427,7 @@ H("s2_from_utf8", "__verif::s1", "S2", quick=[], thorough=["C14"], timeout=2400,
 # ---------------------------------------------------------------------------
 DL = ["pop", "remove", "swap_remove", "truncate", "clear", "drain", "forget_drain", "into_iter", "retain", "dedup", "split_off", "into_boxed", "into_slice", "drop_only", "drain_nth"]
 for op in DL:
-    H("dl_" + op, "__verif::dl", "DL", quick=["C15"] if op in ("pop", "remove", "truncate", "drain", "into_iter", "retain", "into_boxed", "into_slice", "drop_only", "drain_nth", "splice_end") else [],
+    H("dl_" + op, "__verif::dl", "DL", quick=["C15"] if op in ("pop", "remove", "truncate", "drain", "into_iter", "retain", "into_boxed", "into_slice", "drop_only", "drain_nth", "dedup") else [],
       thorough=["C15"] + (["C17"] if op == "into_boxed" else []), timeout=1500, cost=40, stubs=STUB_CUT + STUB_LOOPS, inst="Vec<D> (D = id + counting destructor)",
       funcs=["collections::Vec::" + op, "<Vec as Drop>::drop", "Drain/IntoIter Drop", "Bump::reset"],
       bounds={"elements": 3, "operation": op, "arguments": "symbolic", "then": "container dropped, arena reset"})
